@@ -17,6 +17,11 @@ pub enum DiskOp {
     Crash { len: usize },
     /// a 32-bit header field (byte offset 0,4,..,20) holds `value`
     HeaderSet { off: usize, value: u32 },
+    /// the file comes from a machine of the other endianness: every 32-bit word of the first
+    /// `words` words is byte-swapped (6 = the header, usize::MAX = the whole file)
+    SwapWords { words: usize },
+    /// a foreign file of the same length: 0 = the mapping text itself, 1 = seeded random bytes
+    Foreign { kind: u8, seed: u64 },
 }
 
 impl DiskOp {
@@ -24,22 +29,41 @@ impl DiskOp {
         match self {
             DiskOp::Crash { len } => json!({"op": "crash", "durable_len": len}),
             DiskOp::HeaderSet { off, value } => json!({"op": "header_set", "off": off, "value": value}),
+            DiskOp::SwapWords { words } => json!({"op": "swap_words", "words": if *words == usize::MAX { -1i64 } else { *words as i64 }}),
+            DiskOp::Foreign { kind, seed } => json!({"op": "foreign", "kind": kind, "seed": seed.to_string()}),
         }
     }
     pub fn from_json(v: &Value) -> Option<DiskOp> {
         match v.get("op")?.as_str()? {
             "crash" => Some(DiskOp::Crash { len: v.get("durable_len")?.as_u64()? as usize }),
             "header_set" => Some(DiskOp::HeaderSet { off: v.get("off")?.as_u64()? as usize, value: v.get("value")?.as_u64()? as u32 }),
+            "swap_words" => Some(DiskOp::SwapWords { words: { let w = v.get("words")?.as_i64()?; if w < 0 { usize::MAX } else { w as usize } } }),
+            "foreign" => Some(DiskOp::Foreign { kind: v.get("kind")?.as_u64()? as u8, seed: v.get("seed")?.as_str()?.parse().ok()? }),
             _ => None,
         }
     }
 }
 
 /// Apply the ops to a fresh copy of the file; returns the image the next "process" loads.
-pub fn apply_ops(file: &[u8], ops: &[DiskOp]) -> AlignedBuf {
+pub fn apply_ops_with(mapping: &[u8], file: &[u8], ops: &[DiskOp]) -> AlignedBuf {
     let mut img = file.to_vec();
     for op in ops {
         match op {
+            DiskOp::SwapWords { words } => {
+                let n = (img.len() / 4).min(*words);
+                for w in 0..n {
+                    img[w * 4..w * 4 + 4].reverse();
+                }
+            }
+            DiskOp::Foreign { kind, seed } => {
+                let len = img.len();
+                if *kind == 0 && !mapping.is_empty() {
+                    img = mapping.iter().cycle().take(len.max(24)).copied().collect();
+                } else {
+                    let mut r = Rng::new(*seed);
+                    img = (0..len.max(24)).map(|_| r.next_u64() as u8).collect();
+                }
+            }
             DiskOp::Crash { len } => img.truncate(*len),
             DiskOp::HeaderSet { off, value } => {
                 if img.len() >= off + 4 {
@@ -49,6 +73,10 @@ pub fn apply_ops(file: &[u8], ops: &[DiskOp]) -> AlignedBuf {
         }
     }
     AlignedBuf::new(&img)
+}
+
+pub fn apply_ops(file: &[u8], ops: &[DiskOp]) -> AlignedBuf {
+    apply_ops_with(&[], file, ops)
 }
 
 const UNI: UniCfg = UniCfg { lines_full: true, cap: 60_000, compound: true };
@@ -67,13 +95,16 @@ fn answers_on(buf: &[u8], queries: &[Query]) -> Result<Vec<String>, String> {
 /// Returns `Some((class, message))` on a violation.
 pub fn judge_ops(mapping: &[u8], file: &[u8], ops: &[DiskOp], st: Option<&mut Stats>) -> Option<(String, String)> {
     let full_header = Header::read(file)?;
-    let img = apply_ops(file, ops);
+    let img = apply_ops_with(mapping, file, ops);
     let buf = img.as_slice();
     let mut dummy = Stats::default();
     let st = st.unwrap_or(&mut dummy);
     st.inc("parse_calls");
 
-    // expected rejection kinds, clause by clause
+    // Expected rejection kinds, clause by clause. Each later clause presupposes the earlier ones: a
+    // header that cannot be read comes first; if the magic is foreign or byte-swapped nothing else in
+    // the header means anything; if the version differs the layout (and therefore the counts) is
+    // unknown; only then "shorter than declared" is well defined.
     let mut allowed: Vec<&'static str> = Vec::new();
     let mut foreign = false; // magic / version clause applies
     let mut short = false; // "shorter than declared" clause applies (needs layout knowledge)
@@ -83,18 +114,16 @@ pub fn judge_ops(mapping: &[u8], file: &[u8], ops: &[DiskOp], st: Option<&mut St
             allowed.push("InvalidHeader");
         }
         Some(h) => {
-            if h.magic == layout::MAGIC.swap_bytes() {
+            if h.magic == full_header.magic.swap_bytes() {
                 foreign = true;
                 allowed.push("WrongEndianness");
             } else if h.magic != full_header.magic {
                 foreign = true;
                 allowed.push("WrongFormat");
-            }
-            if h.version != full_header.version {
+            } else if h.version != full_header.version {
                 foreign = true;
                 allowed.push("WrongVersion");
-            }
-            if full_header.version == 1 {
+            } else if full_header.version == 1 {
                 let kinds = Layout::of(&h).short_kinds(buf.len() as u128);
                 if !kinds.is_empty() {
                     short = true;
@@ -189,6 +218,11 @@ pub fn header_edits(h: &Header) -> Vec<DiskOp> {
             v.push(DiskOp::HeaderSet { off: 4, value: ver });
         }
     }
+    // a file from a machine of the other endianness (whole header, whole file), and foreign files
+    v.push(DiskOp::SwapWords { words: 6 });
+    v.push(DiskOp::SwapWords { words: usize::MAX });
+    v.push(DiskOp::Foreign { kind: 0, seed: 0 });
+    v.push(DiskOp::Foreign { kind: 1, seed: h.string_bytes as u64 ^ 0x5eed });
     // the four counts
     for (off, n) in [(8usize, h.num_classes), (12, h.num_members), (16, h.num_members_by_params), (20, h.string_bytes)] {
         for val in [0u32, n.wrapping_sub(1), n.wrapping_add(1), n.wrapping_add(2), n.wrapping_add(1 << 16), 1 << 24, 1 << 31, u32::MAX - 1, u32::MAX] {
@@ -402,6 +436,7 @@ pub fn main(env: &Env) -> i32 {
     rep.assumptions = vec![
         "the writer emits the file front to back, so what a crash leaves is a prefix".into(),
         "buffers handed to parse are 8-byte aligned (alignment is not part of the property)".into(),
+        "when several clauses apply to one image the earlier one decides: unreadable header, then magic (swapped / foreign), then version, then sizes - each later clause presupposes the earlier fields are meaningful".into(),
         "clause 3 (error kind for 'shorter than declared') uses an independent layout calculator for format version 1; a cut inside inter-section padding may be attributed to either neighbouring section; skipped when the tree writes another version".into(),
         "an accepted strict prefix is compared with the full file on the complete query universe of the mapping (capped at 60000 queries)".into(),
     ];
@@ -411,7 +446,7 @@ pub fn main(env: &Env) -> i32 {
     let corpus: Vec<(String, Vec<u8>)> = gen::corpus(false).into_iter().filter(|(_, b)| b.len() < if env.thorough { 200_000 } else { 6_000 }).collect();
     rep.rule = format!(
         "per file ({} seeded-generated mappings with 0..{} classes x 0..{} members + {} corpus files, written by the real writer): EVERY strict prefix length 0..len-1 (crash points), \
-         EVERY single header edit (magic swapped + 5 foreign magics; 7 other versions; every single-bit flip of the magic and version words; versions differing only in the upper half / second byte; each of the 4 counts set to 0, n-1, n+1, n+2, n+2^16, 2^24, 2^31, 2^32-2, 2^32-1), plus {} seeded edit+crash combinations. \
+         EVERY single header edit (magic swapped + 5 foreign magics; 7 other versions; every single-bit flip of the magic and version words; versions differing only in the upper half / second byte; the header and the whole file word-swapped (other endianness); the mapping text and random bytes as a foreign file; each of the 4 counts set to 0, n-1, n+1, n+2, n+2^16, 2^24, 2^31, 2^32-2, 2^32-1), plus {} seeded edit+crash combinations. \
          Exhaustive per file over crash points and single edits. distinct_nontrivial = crash points at or beyond the header (offset >= 24) + header edits + combinations, per distinct file.",
         n_gen, maxc, maxm, corpus.len(), combos
     );
